@@ -21,9 +21,9 @@ import (
 )
 
 type seedMeta struct {
-	Property  string   `json:"property"`
-	Detected  []string `json:"detected_by_checks"`
-	Files     []string `json:"files_changed"`
+	Property string   `json:"property"`
+	Detected []string `json:"detected_by_checks"`
+	Files    []string `json:"files_changed"`
 }
 
 func copyTree(src, dst string) error {
@@ -188,6 +188,7 @@ func selfValidate(prop string) map[string]any {
 	res["seeded_rules"] = byRule
 	// behaviour-preserving rewrites: the check must stay silent
 	res["preserving"] = preservingRuns(prop, tmpRoot)
+	res["cross_reference"] = crossReference()
 	res["note"] = "self-validation measures the checker on scratch copies of the current tree; it never raises a VIOLATION"
 	return res
 }
@@ -202,7 +203,7 @@ func preservingRuns(prop, tmpRoot string) map[string]any {
 		out["error"] = "lzrewrite not built"
 		return out
 	}
-	modes := []string{"flipcmp", "demorgan", "opassign", "rename", "swapadd", "negateif"}
+	modes := []string{"flipcmp", "demorgan", "opassign", "rename", "swapadd", "negateif", "renamepkg", "rangeidx"}
 	var mu sync.Mutex
 	var wg sync.WaitGroup
 	var silent, alarms, broken []string
@@ -249,4 +250,38 @@ func preservingRuns(prop, tmpRoot string) map[string]any {
 func lastLine(s string) string {
 	ls := strings.Split(strings.TrimSpace(s), "\n")
 	return ls[len(ls)-1]
+}
+
+// crossReference runs the generic linters once on /repo (read-only) and
+// records how much they report. They give no verdict on any property; the
+// record only documents that the property checks do not duplicate them.
+func crossReference() map[string]any {
+	out := map[string]any{}
+	env := append(os.Environ(), "GOFLAGS=-mod=mod", "GOPROXY=off", "GOSUMDB=off", "GOTOOLCHAIN=local")
+	run := func(name string, args ...string) {
+		path, err := exec.LookPath(args[0])
+		if err != nil {
+			out[name] = "not available"
+			return
+		}
+		cmd := exec.Command(path, args[1:]...)
+		cmd.Dir = *flagRepo
+		cmd.Env = env
+		b, _ := cmd.CombinedOutput()
+		lines := []string{}
+		for _, l := range strings.Split(strings.TrimSpace(string(b)), "\n") {
+			if strings.TrimSpace(l) != "" && !strings.HasPrefix(l, "#") {
+				lines = append(lines, l)
+			}
+		}
+		first := lines
+		if len(first) > 5 {
+			first = first[:5]
+		}
+		out[name] = map[string]any{"diagnostics": len(lines), "first": first}
+	}
+	run("go vet", "go", "vet", "./...")
+	run("staticcheck", "staticcheck", "./...")
+	out["note"] = "generic linters; cross-reference only, no property verdict"
+	return out
 }
